@@ -32,9 +32,11 @@ const (
 	uNever
 	uSlowGood // answers after 1s virtual, re-checks that its query buffer is still intact
 	uRefused
+	uBadVers // extended rcode 16 (BADVERS): the header nibble alone reads 0
+	uBadMode // extended rcode 19: the header nibble alone reads 3
 )
 
-var c14Names = []string{"good", "nx", "servfail", "error", "garbage", "never", "slowgood", "refused"}
+var c14Names = []string{"good", "nx", "servfail", "error", "garbage", "never", "slowgood", "refused", "badvers", "badmode"}
 
 type c14up struct {
 	idx     int
@@ -89,6 +91,9 @@ func (u *c14up) ExchangeContext(ctx context.Context, m []byte) (*[]byte, error) 
 		}
 		r := new(dns.Msg)
 		r.SetRcode(q, rcode)
+		if rcode > 0xF {
+			r.SetEdns0(1232, false) // the upper bits of an extended rcode travel in the OPT record
+		}
 		r.Answer = append(r.Answer, &dns.TXT{Hdr: dns.RR_Header{Name: q.Question[0].Name, Rrtype: dns.TypeTXT, Class: dns.ClassINET, Ttl: 30},
 			Txt: []string{fmt.Sprintf("up=%d marker=%d", u.idx, c.marker)}})
 		b, err := r.Pack()
@@ -108,6 +113,10 @@ func (u *c14up) ExchangeContext(ctx context.Context, m []byte) (*[]byte, error) 
 		return reply(dns.RcodeServerFailure)
 	case uRefused:
 		return reply(dns.RcodeRefused)
+	case uBadVers:
+		return reply(dns.RcodeBadVers)
+	case uBadMode:
+		return reply(19)
 	case uError:
 		return nil, errUp
 	case uGarbage:
@@ -368,7 +377,7 @@ func c14ScenarioH(name string, n, conc int, menu []int, cmode int, tags bool, d,
 		}
 		allowErr, allowReply := false, map[*c14call]bool{}
 		for _, c := range lastOnes {
-			if c.outcome == uServfail || c.outcome == uRefused {
+			if c.outcome == uServfail || c.outcome == uRefused || c.outcome == uBadVers || c.outcome == uBadMode {
 				allowReply[c] = true
 			} else {
 				allowErr = true
@@ -411,10 +420,10 @@ func TestVerifC14(t *testing.T) {
 	d := 2
 	full := []int{uGood, uNX, uServfail, uError, uGarbage, uNever}
 	small := []int{uGood, uServfail, uError, uNever}
-	slow := []int{uSlowGood, uServfail, uGarbage, uNever}
+	slow := []int{uSlowGood, uServfail, uGarbage, uNever, uBadVers, uBadMode}
 	if e.Tier == "thorough" {
 		d = 3
-		full = append(full, uRefused, uSlowGood)
+		full = append(full, uRefused, uSlowGood, uBadVers, uBadMode)
 		small = full
 	}
 	scs := []vr.Scenario{
